@@ -47,6 +47,15 @@ class Quantity(DimensionSymbol, SymQuantity):  # type: ignore[misc]  # pylint: d
                 f"Argument '{expr}' to function 'Quantity()' should "
                 f"be an expression made of numbers and quantities.",) from e
 
+        # explicit dimension is intended for numbers. It should not relabel an expression that has
+        # a dimension of its own, eg Quantity(units.second, dimension=units.length)
+        if dimension is not None and not is_any_dimension(scale):
+            dimension_system = SI.get_dimension_system()
+            collected = dimension_.subs("angle", S.One)
+            if not dimension_system.is_dimensionless(collected) and not dimension_system.equivalent_dims(
+                    collected, dimension.subs("angle", S.One)):
+                raise ValueError(f"Dimension of '{expr}' is {dimension_}, but it should be {dimension}")
+
         dimension = dimension or dimension_
         display_symbol = display_symbol or str(self.name)
         super().__init__(display_symbol, dimension, display_latex=display_latex)
